@@ -77,6 +77,50 @@ def _install():
 
     _oi.SymbolicSubscriptInterceptor.trace_op = _subscr
 
+    # (6) the same for CONSTRUCTION: CrossHair's patches of set() / frozenset() build linear-search containers that never hash
+    #     their elements, so set([[1]]) succeeds under the tracer; dict(pairs) raises ValueError instead of TypeError.  Elements /
+    #     keys that are unhashable by structure raise TypeError as in CPython.
+    _orig_set = core._PATCH_REGISTRATIONS.get(builtins.set)
+    _orig_frozenset = core._PATCH_REGISTRATIONS.get(builtins.frozenset)
+    _orig_dict = core._PATCH_REGISTRATIONS.get(builtins.dict)
+    _MISSING = object()
+
+    def _checked_items(itr):
+        items = list(itr)
+        for x in items:
+            if _structurally_unhashable(x):
+                raise TypeError(f"unhashable type: '{type(x).__name__}'")
+        return items
+
+    if _orig_set is not None:
+        def _set(itr=_MISSING):
+            if itr is _MISSING:
+                return _orig_set()
+            return _orig_set(_checked_items(itr))
+        core._PATCH_REGISTRATIONS[builtins.set] = _set
+    if _orig_frozenset is not None:
+        def _frozenset(itr=_MISSING):
+            if itr is _MISSING:
+                return _orig_frozenset()
+            return _orig_frozenset(_checked_items(itr))
+        core._PATCH_REGISTRATIONS[builtins.frozenset] = _frozenset
+    if _orig_dict is not None:
+        from collections.abc import Mapping as _Mapping
+
+        def _dict(*a, **kw):
+            if len(a) == 1 and not isinstance(a[0], _Mapping) and not hasattr(a[0], 'keys'):
+                pairs = list(a[0])
+                for pair in pairs:
+                    try:
+                        k = pair[0]
+                    except Exception:
+                        continue
+                    if _structurally_unhashable(k):
+                        raise TypeError(f"unhashable type: '{type(k).__name__}'")
+                return _orig_dict(pairs, **kw)
+            return _orig_dict(*a, **kw)
+        core._PATCH_REGISTRATIONS[builtins.dict] = _dict
+
     # (4) solver accounting: count z3 queries and solver time (written at exit by chx_stats)
     try:
         import z3
